@@ -366,9 +366,10 @@ class World(object):
                     # the future named op[1] resolved to Ok(QueueResumer): take it out of the poll result and resume / drop it
                     pr = resvars[op[1]]
                     a_ = fresh(); b_ = fresh()
+                    # the resume instant is the moment the resumer is used (call invoked), not the return of resume()
                     emit(['_%d = move ((_%d as Ready).0: Result<QueueResumer, Canceled>)' % (a_, pr), '_%d = move ((_%d as Ok).0: QueueResumer)' % (b_, a_)],
-                         ('_%d = queue_resumer::QueueResumer::resume(move _%d) -> [return: bb%d, unwind continue]' if op[2] == 'resume' else '_%d = mem::drop::<QueueResumer>(move _%d) -> [return: bb%d, unwind continue]') % (fresh(), b_, len(blocks) + 1))
-                    emit([], '_%d = __resumed(const %d_usize) -> [return: bb%d, unwind continue]' % (fresh(), futvars[op[1]][1], len(blocks) + 1))
+                         '_%d = __resumed(const %d_usize) -> [return: bb%d, unwind continue]' % (fresh(), futvars[op[1]][1], len(blocks) + 1))
+                    emit([], ('_%d = queue_resumer::QueueResumer::resume(move _%d) -> [return: bb%d, unwind continue]' if op[2] == 'resume' else '_%d = mem::drop::<QueueResumer>(move _%d) -> [return: bb%d, unwind continue]') % (fresh(), b_, len(blocks) + 1))
                 elif kind == 'd_new':
                     dv = fresh(); cn = fresh()
                     dvars[op[1]] = dv
